@@ -6,6 +6,7 @@ import (
 	"fmt"
 	"strings"
 	"sync"
+	"sync/atomic"
 	"testing"
 	"time"
 
@@ -113,9 +114,34 @@ func execOp(inst schema.Type, callable *schema.CallableSchema, op Op) opOutcome 
 			o.val, o.err = s, serr != nil
 		case "compat":
 			o.err = inst.ValidateCompatibility(op.Arg.Go()) != nil
+		case "describe":
+			// self-description walks the package-level meta-schema (and its one-of tables) with this schema as data
+			if sc, ok := inst.(*schema.ScopeSchema); ok {
+				d, err := sc.SelfSerialize()
+				o.val, o.err = d, err != nil
+			}
+		case "rebuild":
+			// loading a description uses the package-level meta-schema as the schema: two loads at once share it
+			if sc, ok := inst.(*schema.ScopeSchema); ok {
+				d, err := sc.SelfSerialize()
+				if err != nil {
+					o.err = true
+					return
+				}
+				r, err := schema.UnserializeScope(d)
+				if err != nil {
+					o.val, o.err = "rebuild failed", true
+					return
+				}
+				d2, err := r.SelfSerialize()
+				o.val, o.err = d2, err != nil
+			}
 		case "callstep":
 			id, data, err := callable.CallStep(context.Background(), "run-"+op.Arg.String(), "step", op.Arg.Go())
 			o.val, o.err = []any{id, data}, err != nil
+		case "callsignal":
+			// same run-ID space as callstep: a signal and its step may be first users of the run together
+			o.err = callable.CallSignal(context.Background(), "run-"+op.Arg.String(), "step", "sig", map[string]any{}) != nil
 		}
 	})
 	return o
@@ -127,10 +153,43 @@ func makeCallable(inst schema.Type) *schema.CallableSchema {
 		return nil
 	}
 	out := schema.NewScopeSchema(schema.NewObjectSchema("out", map[string]*schema.PropertySchema{}))
-	step := schema.NewCallableStep[any]("step", sc, map[string]*schema.StepOutputSchema{"success": schema.NewStepOutputSchema(out, nil, false)}, nil,
-		func(_ context.Context, _ any) (string, any) { return "success", map[string]any{} })
-	return schema.NewCallableSchema(step)
+	// The step has a signal handler and an initializer: its per-run data must be created exactly once per run ID even
+	// when the step call and a signal for the same run arrive together (that needs no data race to go wrong).
+	counter := &runCounter{inits: map[string]int{}}
+	var nextRun int64
+	sigData := schema.NewScopeSchema(schema.NewObjectSchema("sigdata", map[string]*schema.PropertySchema{}))
+	sig := schema.NewCallableSignal[*runData, any]("sig", sigData, nil, func(_ context.Context, d *runData, _ any) {
+		if d != nil {
+			atomic.AddInt64(&d.signals, 1)
+		}
+	})
+	step := schema.NewCallableStepWithSignals[*runData, any]("step", sc, map[string]*schema.StepOutputSchema{"success": schema.NewStepOutputSchema(out, nil, false)},
+		map[string]schema.CallableSignal{"sig": sig}, nil, nil,
+		func() *runData {
+			// the initializer cannot know its run ID; the harness counts per callable and compares with the number of
+			// distinct run IDs used afterwards
+			atomic.AddInt64(&nextRun, 1)
+			time.Sleep(300 * time.Microsecond) // a plugin's initializer does real work; first users of a run overlap in here
+			counter.mu.Lock()
+			counter.total++
+			counter.mu.Unlock()
+			return &runData{}
+		},
+		func(_ context.Context, _ *runData, _ any) (string, any) { return "success", map[string]any{} })
+	cs := schema.NewCallableSchema(step)
+	initCounters.Store(cs, counter)
+	return cs
 }
+
+type runData struct{ signals int64 }
+
+type runCounter struct {
+	mu    sync.Mutex
+	total int
+	inits map[string]int
+}
+
+var initCounters sync.Map // *schema.CallableSchema -> *runCounter
 
 func workerFn(raw json.RawMessage) json.RawMessage {
 	var c Case
@@ -179,7 +238,7 @@ func workerFn(raw json.RawMessage) json.RawMessage {
 					myCallable = makeCallable(myInst)
 				}
 				for i, op := range c.Ops[g] {
-					if op.Op == "callstep" && myCallable == nil {
+					if (op.Op == "callstep" || op.Op == "callsignal") && myCallable == nil {
 						continue
 					}
 					outcomes[g][i] = execOp(myInst, myCallable, op)
@@ -188,9 +247,31 @@ func workerFn(raw json.RawMessage) json.RawMessage {
 		}
 		close(start)
 		wg.Wait()
+		// step data: the shared callable's initializer ran at most once per distinct run ID that reached it
+		if callable != nil && !c.Globals {
+			runs := map[string]bool{}
+			for g := range c.Ops {
+				for _, op := range c.Ops[g] {
+					if op.Op == "callstep" || op.Op == "callsignal" {
+						runs["run-"+op.Arg.String()] = true
+					}
+				}
+			}
+			if cv, ok := initCounters.Load(callable); ok {
+				rc := cv.(*runCounter)
+				rc.mu.Lock()
+				total := rc.total
+				rc.mu.Unlock()
+				if total > len(runs) {
+					res.Outcome, res.Text = "mismatch", fmt.Sprintf("the step-data initializer ran %d times for %d distinct run IDs: a step call and a signal (or two signals) that were the first users of one run ID each created their own step data", total, len(runs))
+					return
+				}
+			}
+			initCounters.Delete(callable)
+		}
 		for g := range c.Ops {
 			for i, op := range c.Ops[g] {
-				if op.Op == "callstep" && callable == nil && !c.Globals {
+				if (op.Op == "callstep" || op.Op == "callsignal") && callable == nil && !c.Globals {
 					continue
 				}
 				if outcomes[g][i] == (opOutcome{}) {
@@ -287,7 +368,7 @@ func genCase(rt *rapid.T, globals bool) Case {
 	for g := 0; g < c.Goroutines; g++ {
 		var ops []Op
 		for i := 0; i < rapid.IntRange(1, 4).Draw(rt, "nOps"); i++ {
-			ops = append(ops, Op{Op: rapid.SampledFrom([]string{"unserialize", "roundtrip", "roundtrip", "compat", "callstep"}).Draw(rt, "op"), Arg: rapid.SampledFrom(pool).Draw(rt, "arg")})
+			ops = append(ops, Op{Op: rapid.SampledFrom([]string{"unserialize", "roundtrip", "roundtrip", "compat", "callstep", "callsignal", "callsignal", "describe", "rebuild"}).Draw(rt, "op"), Arg: rapid.SampledFrom(pool).Draw(rt, "arg")})
 		}
 		c.Ops = append(c.Ops, ops)
 	}
